@@ -220,6 +220,20 @@ CLAIMED = {
   "info), re-dump equality and determinism are checked by execution only (correspondence), on generated chunks x 7 argument tuples.",
   "Trusted: Lean kernel; the VM (the loaded function is run, not modelled); budgets not modelled; RefactorCodeConsts is exercised (its output is what is exported and dumped) but has no "
   "theorem of its own; strip=true is ignored by golua and not exercised. Three recorded defects (allocation before validation, negative upvalue count, truncated string accepted).", "6/C13, 14/C13"),
+ "C04": ("proof",
+  "Lean 4 theorems over the REGENERATED opcode field encoders (92 functions of code/opcodes.go + instructions.go, Go->Lean on every run) and over a limit-check model fed by a regenerated panic-site table + crash search (source texts, size-parameterised templates in child processes, library calls) and limit correspondence",
+  "Props/C04.lean (35 obligations): encode_decode_roundtrip_type0..7/4a/4b (every getter returns exactly the written argument when it is in range, whatever the other fields: round trip and no "
+  "overlap), type_prefixes_distinct, setOffset/setKIndex round trip and locality (bit by bit), kindex/index8_in_range_or_panic, jump_offset_faithful_iff, jump_offset_never_truncated, "
+  "pc_never_wraps_in_compiled_function, limit_exceeded_is_error_{registers,constants,fill_table,function_length} (each for all n: ok up to the limit, designated compile error above), "
+  "compileQueue_recovers_only_designated and panic_sites_accounted over the regenerated table of panic sites of ircomp/code (every site is designated, proved unreachable, or a listed "
+  "size-independent invariant; a new raw panic site fails it). Model.Limits' prediction (ok / compile error) is compared with the real compiler around every threshold (255/256 locals, 254/255 "
+  "items, 65536/65537 constants, 32767/32770 opcodes). Crash search per quick run: ~57k source texts (all <=2-token strings over a 102-token alphabet, sampled 3-4 tokens, token-level mutations "
+  "of 40 valid programs), 127 size-parameterised templates in child processes (nesting, huge functions, recursion through metamethods, amplification under limits), ~35k library calls "
+  "(142 Go functions x edge-value tuples); any Go panic, process death, hang or wrong result after an exceeded limit is a violation keyed by class + normalised panic + frame.",
+  "Only the opcode field layer and the limit checks are proved. The rest of C04 (scanner, parser, compiler stages, VM, ~140 library functions) is exploration supporting the theorems, not "
+  "proof; the totality theorems of the other properties' models (build_total, match_total, unmarshal_total, parse_total, decode_total ...) live in their own Props files. Fatal Go errors "
+  "(stack exhaustion, OOM) cannot be expressed in the model and are only searched for; memory exhaustion in contexts without a memory limit is out of scope. One recorded defect "
+  "(debug.setmetatable on a file userdata: SetFinalizer fatal error).", "6/C04, 14/C04"),
 }
 
 NOT_YET = "machinery for this property is not built yet in this revision (see DESIGN.md section 9 build order); not claimed"
